@@ -1,0 +1,14 @@
+//go:build !verif
+
+// Package verifhook provides verification hook points. Without the "verif"
+// build tag every function is an empty stub that the compiler inlines away.
+package verifhook
+
+// Enabled reports whether the binary was built with verification hooks.
+func Enabled() bool { return false }
+
+// Point marks a labelled synchronization/crash point.
+func Point(label string) {}
+
+// Publish hands a value constructed inside production code to a harness.
+func Publish(name string, v any) {}
